@@ -152,22 +152,50 @@ func decTerm(d decimal.Decimal) string {
 	return Pair(BigN(m), Z(e))
 }
 
-// patternCore strips one leading ^ and one trailing $: a pattern and its anchored form are the same pattern.
-func patternCore(s string) string {
-	s = strings.TrimPrefix(s, "^")
-	s = strings.TrimSuffix(s, "$")
-	return s
+// documented gives the meaning of an account pattern as written in a document: a pattern with both
+// anchors is used as written; otherwise the whole name "wallet/account" must match it (the
+// documentation: "specified with implicit start and end anchors ... if these are not supplied they
+// are added by Vouch").
+func documented(s string) string {
+	if strings.HasPrefix(s, "^") && strings.HasSuffix(s, "$") {
+		return s
+	}
+	return "^(?:" + s + ")$"
 }
 
 type tables struct {
 	relays   map[string]uint64
-	patterns map[string]uint64
+	patterns map[string]uint64 // regular expression source -> number
+	sigs     map[string]uint64 // behaviour on the probe names -> number
 	compiled map[uint64]*regexp.Regexp
 	values   map[string]uint64
+	probes   []string
 }
 
-func newTables() *tables {
-	return &tables{relays: map[string]uint64{}, patterns: map[string]uint64{}, compiled: map[uint64]*regexp.Regexp{}, values: map[string]uint64{}}
+// probeBases: the names the generators use, plus forms no validator of the case may have.
+var probeBases = func() []string {
+	var out []string
+	ws := append([]string{"<unknown>", "Wallet 11", "Wallet"}, wallets...)
+	as := append([]string{"<unknown>", "Account", "Account 21"}, accounts...)
+	for _, w := range ws {
+		for _, a := range as {
+			out = append(out, w+"/"+a)
+		}
+	}
+	return out
+}()
+
+func newTables(vals []Validator) *tables {
+	t := &tables{relays: map[string]uint64{}, patterns: map[string]uint64{}, sigs: map[string]uint64{},
+		compiled: map[uint64]*regexp.Regexp{}, values: map[string]uint64{}}
+	bases := append([]string{}, probeBases...)
+	for _, v := range vals {
+		bases = append(bases, v.specName())
+	}
+	for _, b := range bases {
+		t.probes = append(t.probes, b, b+"x", "x"+b)
+	}
+	return t
 }
 
 func (t *tables) relay(addr string) uint64 {
@@ -185,20 +213,41 @@ func (t *tables) relay(addr string) uint64 {
 	return id
 }
 
-// pattern returns the number of an account pattern, or false when it does not compile.  The
-// documented meaning of a pattern is "the whole name matches": ^(?:core)$.
-func (t *tables) pattern(s string) (uint64, bool) {
-	core := patternCore(s)
-	if id, ok := t.patterns[core]; ok {
+// pattern numbers an account pattern, or returns false when it does not compile.  Patterns are
+// numbered by what they match among the probe names (which include the names of the case's
+// validators): the model only ever asks whether a pattern matches a validator of the case, and the
+// text the implementation chooses for an anchored pattern is not an observable.  asWritten: the
+// source is a regular expression the implementation holds (matched as it is); otherwise it is a
+// pattern of a document, with its documented meaning.
+func (t *tables) pattern(s string, asWritten bool) (uint64, bool) {
+	src := s
+	if !asWritten {
+		src = documented(s)
+	}
+	if id, ok := t.patterns[src]; ok {
 		return id, true
 	}
-	re, err := regexp.Compile("^(?:" + core + ")$")
+	if _, err := regexp.Compile(s); err != nil {
+		return 0, false // not a regular expression on its own
+	}
+	re, err := regexp.Compile(src)
 	if err != nil {
 		return 0, false
 	}
-	id := uint64(1 + len(t.patterns))
-	t.patterns[core] = id
-	t.compiled[id] = re
+	sig := make([]byte, len(t.probes))
+	for i, name := range t.probes {
+		sig[i] = '0'
+		if re.MatchString(name) {
+			sig[i] = '1'
+		}
+	}
+	id, ok := t.sigs[string(sig)]
+	if !ok {
+		id = uint64(1 + len(t.sigs))
+		t.sigs[string(sig)] = id
+		t.compiled[id] = re
+	}
+	t.patterns[src] = id
 	return id, true
 }
 
@@ -280,7 +329,7 @@ func (t *tables) proposerLeaf(s string) string {
 	if strings.HasPrefix(s, "0x") {
 		return t.keyLeaf(s)
 	}
-	if id, ok := t.pattern(s); ok {
+	if id, ok := t.pattern(s, false); ok {
 		return App("LRegex", N(id))
 	}
 	return "LBad"
@@ -556,7 +605,7 @@ func (t *tables) parsed2(e *v2.ExecutionConfig) (string, bool) {
 		}
 		var sel string
 		if p.Account != nil {
-			id, compiles := t.pattern(p.Account.String())
+			id, compiles := t.pattern(p.Account.String(), true)
 			if !compiles {
 				ok = false
 			}
@@ -801,7 +850,7 @@ func (t *tables) lookupSafe(c blockrelay.ExecutionConfigurator, v Validator, fee
 }
 
 func run(in Input, id uint64) (term string, obs observed) {
-	t := newTables()
+	t := newTables(in.Validators)
 	var fee bellatrix.ExecutionAddress
 	if b, ok := hexBytes(in.FallbackFee, 20); ok {
 		copy(fee[:], b)
